@@ -46,7 +46,7 @@ func idFor(c *vk.Ctx, i int) []byte {
 
 func main() {
 	c := vk.Init("C14")
-	c.Rule("TestReqID values: every single byte value except SOH (255), 40 decoys ('112=', '10=000', '35=A', '=', spaces, digits, NUL, high bytes, text resembling other fields), lengths up to 10000, random strings; each injected at every kind of position of a logged-on history (directly after logon, several in a row, between Heartbeats / application messages / rejected messages / local sends), both roles; plus real-time sessions (N=1) in which the session's own TestRequest is pending when the peer's TestRequests arrive; plus sessions on the full stack (scripted net.Conn, connection reader/writer) given identifiers of 1..70000 bytes incl. every length 4088..4104 and 8184..8200, and bursts of 40 TestRequests against a slowly reading peer (handler buffers 0/1/4/10; answers must come in request order). Oracle per TestRequest step: exactly one message emitted in that step (so before any later reply), MsgType 0, its 112 value (reference tokenizer) byte-equal to the ID. distinct = distinct (ID bytes, role, context); non-trivial = all")
+	c.Rule("TestReqID values: every single byte value except SOH (255), 40 decoys ('112=', '10=000', '35=A', '=', spaces, digits, NUL, high bytes, text resembling other fields), lengths up to 10000, random strings; each injected at every kind of position of a logged-on history (directly after logon, several in a row, between Heartbeats / application messages / rejected messages / local sends), both roles; plus real-time sessions (N=1) in which the session's own TestRequest is pending when the peer's TestRequests arrive; plus real-time sessions observed for 2.4 s after an answer (the periodic Heartbeats that follow must not carry the TestReqID again); plus sessions on the full stack (scripted net.Conn, connection reader/writer) given identifiers of 1..70000 bytes incl. every length 4088..4104 and 8184..8200, and bursts of 40 TestRequests against a slowly reading peer (handler buffers 0/1/4/10; answers must come in request order). Oracle per TestRequest step: exactly one message emitted in that step (so before any later reply), MsgType 0, its 112 value (reference tokenizer) byte-equal to the ID. distinct = distinct (ID bytes, role, context); non-trivial = all")
 	n := c.Pick(700, 12000)
 	vk.Parallel(n, runtime.NumCPU(), func(i int) {
 		r := c.Rand("c14", int64(i))
@@ -178,6 +178,48 @@ func main() {
 					}
 					c.Violate("C14/not-exactly-one-heartbeat/own-testrequest-pending", fmt.Sprintf("%s: TestRequest %q answered with %v", desc, id, t), map[string]interface{}{"scenario": desc})
 				}
+			}
+		}(i)
+	}
+	wg.Wait()
+	// real time: after the answer, the session's periodic Heartbeats (N=1) must not carry that TestReqID again
+	nst := c.Pick(4, 16)
+	for i := 0; i < nst; i++ {
+		wg.Add(1)
+		go func(i int) {
+			defer wg.Done()
+			role := rig.Role(i % 2)
+			desc := fmt.Sprintf("%s N=1: logon, one TestRequest, then 2.4 s in which the peer only sends Heartbeats", role)
+			rg, err := rig.NewStepRig(rig.StepCfg{Role: role, HeartBtInt: 1, Limits: &session.IntLimits{Min: 1, Max: 60}})
+			if err != nil {
+				return
+			}
+			defer rg.Close()
+			p := rig.NewPeer()
+			if res := rg.Inbound(p.Logon(1, "0")); !res.Logged {
+				return
+			}
+			id := []byte(fmt.Sprintf("PING=%d A", i))
+			rg.Inbound(p.Msg("1", fixref.Field{Tag: rig.TTestReqID, Val: id}))
+			for k := 0; k < 3; k++ {
+				time.Sleep(800 * time.Millisecond)
+				rg.Inbound(p.Heartbeat())
+			}
+			n, periodic := 0, 0
+			for _, o := range rg.AllOuts() {
+				if o.Type != "0" {
+					continue
+				}
+				if v, ok := fixref.Get(o.Fields, rig.TTestReqID); ok && bytes.Equal(v, id) {
+					n++
+				} else if !ok {
+					periodic++
+				}
+			}
+			c.Eval(vk.Hash64(id, []byte(desc)), periodic > 0)
+			c.Count("answers_followed_by_periodic_heartbeats", 1)
+			if n != 1 {
+				c.Violate("C14/not-exactly-one-heartbeat/testreqid-repeated-on-later-heartbeats", fmt.Sprintf("%s: %d Heartbeats carry the TestReqID %q (the answer and %d later ones); %d periodic Heartbeats without it", desc, n, id, n-1, periodic), map[string]interface{}{"scenario": desc})
 			}
 		}(i)
 	}
